@@ -370,6 +370,7 @@ func (n *bNode) shutdown() {
 		n.noteBuffered()
 	}
 	startstop.Stop(n.objects, nullStartStopLogger{})
+	heapNodes.Delete(n.coll) // the registry must not keep finished nodes (and all they hold) alive
 }
 
 // ---------------------------------------------------------------------------
